@@ -413,16 +413,54 @@ def concretize(formula, model, mod):
     return None
 
 
+def _structured_witness(f, mod, seed, limit=40000):
+    import itertools
+    rnd = random.Random(seed * 101 + 7)
+    vs = {}
+    for v in z3_vars(f):
+        vs[v.decl().name()] = v
+    ints = sorted(n for n, v in vs.items() if z3.is_int(v))
+    bools = sorted(n for n, v in vs.items() if z3.is_bool(v))
+    others = [n for n, v in vs.items() if not (z3.is_int(v) or z3.is_bool(v))]
+    if others or len(ints) > 8 or len(bools) > 6:
+        return None
+    r1, r2 = rnd.randrange(2, mod), rnd.randrange(2, mod)
+    vals = [0, 1, mod - 1, r1, r2]
+    count = 0
+    for bv in itertools.product([False, True], repeat=len(bools)):
+        for iv in itertools.product(vals, repeat=len(ints)):
+            count += 1
+            if count > limit:
+                return None
+            env = dict(zip(ints, iv))
+            env.update(dict(zip(bools, bv)))
+            try:
+                if eval_mod(f, env, mod) is True:
+                    return env
+            except Exception:
+                return None
+    return None
+
+
 def settle_structural(ctx, groups, keyprefix, mod=ref.Q):
     """sat answers on case-structure / conversion / no-panic obligations become violations only when the violation
     formula is true at the solver's point with isz read as the zero test modulo q; otherwise they stay inconclusive"""
     chk = ctx.chk
-    for o in chk.failed():
+    for o in list(chk.failed()) + [u for u in chk.undecided() if u.expect == 'unsat']:
         if o.handled or o.group not in groups or o.expect != 'unsat':
             continue
         f = chk.formulas.get(o.name)
-        v = concretize(f, o.model, mod) if f is not None else None
+        v = concretize(f, o.model, mod) if (f is not None and o.result == 'sat') else None
+        point = o.model
+        if v is not True and f is not None:
+            # the solver's point interprets isz_* freely; look for a REAL point (isz := zero test modulo q) among structured
+            # assignments: every integer unknown in {0, 1, -1, two random values}, every boolean in {False, True}
+            point = _structured_witness(f, mod, ctx.seed)
+            v = True if point is not None else v
         if v is True:
             o.handled = True
+            if o.result != 'sat':
+                o.result = 'sat'          # the solver ran out of time; the counterexample was found by evaluating the violation formula at structured real points
             ctx.violation(keyprefix + ':' + o.name.split(':')[0][:50], '%s obligation fails: %s' % (keyprefix, o.name),
-                          {'obligation': o.name, 'model': o.model, 'confirmed': 'violation formula is true at this point with isz := (t mod q == 0)'})
+                          {'obligation': o.name, 'model': {k_: (hex(v_) if isinstance(v_, int) and not isinstance(v_, bool) else v_) for k_, v_ in (point or {}).items()},
+                           'confirmed': 'violation formula is true at this point with isz := (t mod q == 0)'})
